@@ -101,6 +101,14 @@ where
             .and_modify(|v| *v = min(v.clone(), bound.clone()))
             .or_insert(bound);
     }
+
+    /// Verification hook (feature `verif-hooks`, default off, add-only): a
+    /// read-only copy of the cache of (strict) upper bounds recorded so far,
+    /// in unspecified order.
+    #[cfg(feature = "verif-hooks")]
+    pub fn verif_constrained_cells(&self) -> Vec<(AssignedNative<F>, BigUint)> {
+        self.constrained_cells.borrow().iter().map(|(x, b)| (x.clone(), b.clone())).collect()
+    }
 }
 
 impl<F: CircuitField> Instantiable<F> for AssignedByte<F> {
